@@ -217,7 +217,11 @@ bool RadioTapParser::advance_namespace() {
 }
 
 RadioTap::PresentFlags RadioTapParser::namespace_flags() const {
-    uint32_t output;
+    uint32_t output = 0;
+    // There are no flags if there's no buffer
+    if (start_ == 0) {
+        return static_cast<RadioTap::PresentFlags>(0);
+    }
     memcpy(&output, get_flags_ptr(), sizeof(output));
     return static_cast<RadioTap::PresentFlags>(Endian::le_to_host(output));
 }
